@@ -511,3 +511,76 @@ package bpmn
 //@             result.flowWaitGroup == flowWaitGroup && result.idGenerator == idGenerator && result.locator == locator &&
 //@             result.definitions == definitions && result.actionTransformer == actionTransformer &&
 //@             result.sequenceFlowId == nil && result.retry == nil && result.terminate == nil
+
+// ---------------------------------------------------------------------------
+// flow.go: the token loop and its helpers (C01, C04, C06, C08, C09, C20)
+
+//@ func (*flow).termination
+//@   prop C01 C06
+//@   modifies nothing
+//@   ensures f.terminate == nil ==> result == nil && evlen == old(evlen)
+
+// executeSequenceFlow: an unconditional flow is taken without evaluating anything; the evaluation itself
+// (expression engines) is unknown code: opaque events, arbitrary result.
+//@ func (*flow).executeSequenceFlow
+//@   prop C01 C04
+//@   flag emits opaque
+//@   ensures [unconditional-is-taken] unconditional ==> result && err == nil && evlen == old(evlen)
+//@   ensures [error-means-not-taken] err != nil ==> !result
+//@   ensures f.current == old(f.current) && f.sequenceFlowId == old(f.sequenceFlowId) && f.terminate == old(f.terminate) &&
+//@           f.actionTransformer == old(f.actionTransformer) && f.retry == old(f.retry) && f.id == old(f.id) && f.tracer == old(f.tracer) &&
+//@           f.idGenerator == old(f.idGenerator) && f.flowNodeMapping == old(f.flowNodeMapping) && f.flowWaitGroup == old(f.flowWaitGroup) && f.locator == old(f.locator)
+
+// handleSequenceFlow: the current token either moves along the flow (leave, visit, position and transformer
+// updated) or stays exactly where it was; it emits only traces.
+//@ func (*flow).handleSequenceFlow
+//@   prop C01 C09
+//@   ensures [stays-put-when-not-flowed] !flowed ==> f.current == old(f.current) && f.sequenceFlowId == old(f.sequenceFlowId) &&
+//@             f.terminate == old(f.terminate) && f.actionTransformer == old(f.actionTransformer)
+//@   ensures [moved-when-flowed] flowed ==> f.terminate == terminate && f.actionTransformer == actionTransformer
+//@   ensures [leave-then-visit] flowed ==> evlen >= old(evlen) + 2 && isTrace(ev(evlen - 1)) && is(evval(ev(evlen - 1)), VisitTrace) &&
+//@             exists p int :: old(evlen) <= p && p < evlen - 1 && isTrace(ev(p)) && is(evval(ev(p)), LeaveTrace)
+//@   ensures [only-traces-and-evaluation] forall p int :: old(evlen) <= p && p < evlen ==> (isTrace(ev(p)) && evch(ev(p)) == ref(f.tracer)) || isOpaque(ev(p))
+//@   ensures [no-flow-trace] forall p int :: old(evlen) <= p && p < evlen && isTrace(ev(p)) ==> !is(evval(ev(p)), FlowTrace) && !is(evval(ev(p)), TerminationTrace)
+//@   ensures f.retry == old(f.retry) && f.id == old(f.id) && f.tracer == old(f.tracer) && f.idGenerator == old(f.idGenerator) &&
+//@           f.flowNodeMapping == old(f.flowNodeMapping) && f.flowWaitGroup == old(f.flowWaitGroup) && f.locator == old(f.locator)
+
+// handleAdditionalSequenceFlow: a fork that will flow draws exactly one identifier (flowId) and returns the
+// starter of the new token; one that will not flow draws none.  The current token is not moved.
+//@ func (*flow).handleAdditionalSequenceFlow
+//@   prop C01 C09 C20
+//@   ensures [flowing-fork-draws-one-id] flowed ==> handle != nil && tag(flowId) != 0 &&
+//@             isCall(ev(evlen - 1)) && evch(ev(evlen - 1)) == code("id|IGenerator.New") && evval(ev(evlen - 1)) == f.idGenerator &&
+//@             eva1(ev(evlen - 1)) == flowId &&
+//@             forall p int :: old(evlen) <= p && p < evlen - 1 ==> !isCall(ev(p)) || isOpaque(ev(p)) && evch(ev(p)) != code("id|IGenerator.New")
+//@   ensures [non-flowing-fork-draws-none] !flowed ==> handle == nil &&
+//@             forall p int :: old(evlen) <= p && p < evlen ==> !(isCall(ev(p)) && evch(ev(p)) == code("id|IGenerator.New"))
+//@   ensures [nothing-started-yet] forall p int :: old(evlen) <= p && p < evlen ==> !isSpawn(ev(p)) && !isWgAdd(ev(p)) &&
+//@             !(isTrace(ev(p)) && (is(evval(ev(p)), FlowTrace) || is(evval(ev(p)), TerminationTrace) || is(evval(ev(p)), VisitTrace)))
+//@   ensures [current-token-untouched] f.current == old(f.current) && f.sequenceFlowId == old(f.sequenceFlowId) && f.terminate == old(f.terminate) &&
+//@             f.actionTransformer == old(f.actionTransformer) && f.retry == old(f.retry) && f.id == old(f.id) && f.tracer == old(f.tracer) &&
+//@             f.idGenerator == old(f.idGenerator) && f.flowNodeMapping == old(f.flowNodeMapping) && f.flowWaitGroup == old(f.flowWaitGroup) && f.locator == old(f.locator)
+
+// Start: the token is counted in the instance's wait group before its goroutine exists.
+//@ func (*flow).Start
+//@   prop C01 C02 C09
+//@   modifies nothing
+//@   emits WgAdd(f.flowWaitGroup, 1)
+//@   emits Call(code("tracing|ITracer.RegisterSender"), f.tracer)
+//@   emits Spawn(code("(*flow).Start$1"), f)
+
+// the starter of a forked token: one new token, with the pre-drawn id, the parent's generator, tracer,
+// wait group and locator, positioned on the fork's target.
+//@ func (*flow).handleAdditionalSequenceFlow$1
+//@   prop C01 C09 C20
+//@   ensures [one-token-started] exists p int :: old(evlen) <= p && p < evlen && isSpawn(ev(p))
+//@   ensures [only-one-token-started] forall p int, q int :: old(evlen) <= p && p < q && q < evlen && isSpawn(ev(p)) ==> !isSpawn(ev(q))
+//@   ensures [started-token-is-the-announced-one] forall p int :: old(evlen) <= p && p < evlen && isSpawn(ev(p)) ==>
+//@             evch(ev(p)) == code("(*flow).Start$1") &&
+//@             evval(ev(p)).(*flow).id == flowId && evval(ev(p)).(*flow).idGenerator == f.idGenerator &&
+//@             evval(ev(p)).(*flow).tracer == f.tracer && evval(ev(p)).(*flow).flowWaitGroup == f.flowWaitGroup &&
+//@             evval(ev(p)).(*flow).locator == f.locator && evval(ev(p)).(*flow).flowNodeMapping == f.flowNodeMapping &&
+//@             evval(ev(p)).(*flow).current == flowNode && evval(ev(p)).(*flow).terminate == terminate &&
+//@             evval(ev(p)).(*flow).actionTransformer == actionTransformer
+//@   ensures [counted-before-started] forall p int :: old(evlen) <= p && p < evlen && isSpawn(ev(p)) ==>
+//@             exists q int :: old(evlen) <= q && q < p && isWgAdd(ev(q)) && evch(ev(q)) == f.flowWaitGroup
